@@ -61,7 +61,8 @@ const buildParsers = (args) => {
   let acc = {};
   for (const k of Object.keys(buildParsersInput)) {
     const it = buildParserFromRuntype(buildParsersInput[k], k, false);
-    acc[k] = it;
+    // acc["__proto__"] = it would set the prototype of the result instead of adding the parser
+    Object.defineProperty(acc, k, { value: it, enumerable: true, writable: true, configurable: true });
   }
   return acc;
 };
